@@ -450,7 +450,31 @@ func execEnc(line string) h.Result {
 	os.Unsetenv("COLUMNS")
 	tty := NewFakeTty(tw, 2)
 	scr, err := tcell.NewTerminfoScreenFromTtyTerminfo(tty, &tic)
-	if err != nil || scr.Init() != nil {
+	if err != nil {
+		res.Obs = "init-failed"
+		return res
+	}
+	// ops `PR r s` / `PU r` (leading ops only): RegisterRuneFallback / UnregisterRuneFallback on the constructed screen BEFORE
+	// Init — "take effect at the next draw" holds for a change made at any time of the screen's life
+	type preOp struct {
+		r   rune
+		s   string
+		del bool
+	}
+	var pre []preOp
+	for _, op := range ops[1:] {
+		f := strings.Fields(op)
+		if len(f) == 3 && f[0] == "PR" {
+			pre = append(pre, preOp{rune(h.Atoi(f[1])), string(h.Unhex(f[2])), false})
+			scr.RegisterRuneFallback(pre[len(pre)-1].r, pre[len(pre)-1].s)
+		} else if len(f) == 2 && f[0] == "PU" {
+			pre = append(pre, preOp{rune(h.Atoi(f[1])), "", true})
+			scr.UnregisterRuneFallback(pre[len(pre)-1].r)
+		} else {
+			break
+		}
+	}
+	if scr.Init() != nil {
 		res.Obs = "init-failed"
 		return res
 	}
@@ -458,6 +482,14 @@ func execEnc(line string) h.Result {
 	e := &encRun{scr: scr, tty: tty, ti: src, cd: cd, tw: tw, refs: map[int][2][]byte{}, fb: map[rune]string{}, res: &res, tags: map[string]bool{}}
 	for k, v := range defaultRuneFallbacks {
 		e.fb[k] = v
+	}
+	for _, p := range pre {
+		if p.del {
+			delete(e.fb, p.r)
+		} else {
+			e.fb[p.r] = p.s
+		}
+		e.tags["fallback-change-before-init"] = true
 	}
 	// the other screen of the case (op X)
 	var other *encRun
@@ -541,6 +573,8 @@ func execEnc(line string) h.Result {
 			scr.RegisterRuneFallback(r, s)
 			e.fb[r] = s
 			e.tags["register"] = true
+		case (f[0] == "PR" && len(f) == 3) || (f[0] == "PU" && len(f) == 2):
+			// applied before Init (above)
 		case f[0] == "U" && len(f) == 2:
 			r := rune(h.Atoi(f[1]))
 			scr.UnregisterRuneFallback(r)
@@ -662,6 +696,46 @@ func genEnc(g *h.Gen) {
 			rs := append([]rune{rune(d.main)}, toRunes(d.comb)...)
 			g.Emit("enc cfg %s %s %s 6; D 1 %d %s %s; C %d 0 %s; C %d 1 %s", v, d.entry, d.cs, d.main, h.ShowIntList(d.comb), encList(cd, rs),
 				d.main, cd.encStr(rune(d.main)), d.main, cd.encStr(rune(d.main)))
+		}
+	}
+	// 0a'. registration changes made on the constructed screen BEFORE Init (ops PR / PU), observed at the first draws
+	{
+		var defs []int
+		for k := range defaultRuneFallbacks {
+			defs = append(defs, int(k))
+		}
+		sort.Ints(defs)
+		for i := g.N(40, 1200); i > 0 && len(defs) > 0; i-- {
+			cs := h.Pick(r, []string{"US-ASCII", "US-ASCII", "ISO8859-1", "KOI8-R", "ISO8859-15", "GBK"})
+			cd := newCodec(cs)
+			if cd == nil {
+				continue
+			}
+			tw := r.Range(3, 6)
+			ops := []string{fmt.Sprintf("cfg %s %s %s %d", v, h.Pick(r, []string{"sun", "sun", "linux", "xterm", "vt220", "ansi", "beterm"}), cs, tw)}
+			var rs []int
+			for k := r.Range(1, 3); k > 0; k-- {
+				m := h.Pick(r, defs)
+				if r.Chance(25) {
+					m = h.Pick(r, []int{0x4e16, 0x20ac, 0x3b1, 0x2603, 0xe9})
+				}
+				rs = append(rs, m)
+				if r.Chance(65) {
+					ops = append(ops, fmt.Sprintf("PU %d", m))
+				} else {
+					fb := h.Pick(r, []string{"*", "+", "o", "!"})
+					if runewidth.RuneWidth(rune(m)) > 1 {
+						fb = "ab"
+					}
+					ops = append(ops, fmt.Sprintf("PR %d %s", m, h.Hex([]byte(fb))))
+				}
+			}
+			rs = append(rs, h.Pick(r, defs))
+			for _, m := range rs {
+				ops = append(ops, fmt.Sprintf("D %d %d - %s", r.Range(0, tw-2), m, encList(cd, []rune{visibleMain(rune(m))})),
+					fmt.Sprintf("C %d 1 %s", m, cd.encStr(rune(m))), fmt.Sprintf("C %d 0 %s", m, cd.encStr(rune(m))))
+			}
+			g.Emit("enc %s", strings.Join(ops, "; "))
 		}
 	}
 	// 0b. two screens in one process: registrations on one screen, draws and CanDisplay on the other (created before or after)
